@@ -300,6 +300,18 @@ def pstr(path):
     return ".".join(map(str, path)) if path else "_"
 
 
+def golit(t, base, counter=None):
+    """Go composite literal of type t whose k-th leaf cell (memory order) holds base+k+1"""
+    counter = counter if counter is not None else [0]
+    if t["k"] == "s":
+        parts = ["%s: %s" % (t["fnames"][i], golit(f, base, counter)) for i, f in enumerate(t["fields"])]
+        return "%s{%s}" % (t["go"], ", ".join(parts))
+    if t["k"] == "a":
+        return "%s{%s}" % (t["go"], ", ".join(golit(t["elem"], base, counter) for _ in range(t["n"])))
+    counter[0] += 1
+    return setv(t, base + counter[0])
+
+
 def setv(lt, n):
     return {"i": "%d" % n, "p": "&cells[%d]" % n, "l": "mkl(%d)" % n, "m": "mkm(%d)" % n, "f": "interface{}(%d)" % n}[lt["k"]]
 
@@ -617,6 +629,112 @@ def gen_probe(pid, rng, types, forced=None):
             pr.dump(T, xval); M.append("dump:0")
         pr.sigs[1] = SIG_IFACE
         pr.sigs[2] = SIG_IFACE
+    elif ctx == "reassign":
+        # a WHOLE-variable assignment after pointers into the variable were taken: the variable keeps its storage, so
+        # the old pointers (to the variable, to a leaf field/element of it, a bound pointer-receiver method value) stay attached
+        tk = rng.choice(["local", "local", "global", "captured", "field", "elem"])
+        if tk == "global":
+            pr.top.append("var gz%d %s" % (pid, Ugo))
+            z, zpath, ztok = "gz%d" % pid, [], token(U)
+        elif tk == "field":
+            B.append("var w struct { A int; B %s }" % Ugo)
+            z, zpath, ztok = "w.B", [1], "s2.i." + token(U)
+        elif tk == "elem":
+            B.append("var w [2]%s" % Ugo)
+            z, zpath, ztok = "w[1]", [1], "a2." + token(U)
+        else:
+            B.append("var z %s" % Ugo)
+            z, zpath, ztok = "z", [], token(U)
+        M.append("decl:" + ztok)
+        for i, (lp, lt) in enumerate(leaves(U)):
+            B.append("%s%s = %s" % (z, sel(U, lp), setv(lt, 300 + i + 1)))
+            M.append("set:1:%s:%d" % (pstr(zpath + lp), 300 + i + 1))
+        sctx = {"field": "fieldStore", "elem": "elemStore"}.get(tk, "assign")
+        nslots = [2]
+        # pointers taken BEFORE the assignment
+        B.append("pz := &%s" % z)
+        writers = ["pz"]
+        if l2["k"] == "i":
+            B.append("pl := &%s%s" % (z, sel(U, q2)))
+            writers.append("pl")
+        if U["named"]:
+            pr.top.append("func (y *%s) r%d() { y%s = %s }" % (Ugo, pid, sel(U, q2), setv(l2, 200)))
+            B.append("fr := %s.r%d" % (z, pid))
+            writers.append("fr")
+        form = rng.choice(["lit", "lit", "zero", "var", "result", "deref", "conv", "swap"])
+        wrap = "closure" if tk == "captured" else rng.choice(["plain", "plain", "loop", "closure"])
+        pre, stores = [], []
+        if form == "lit":
+            rhs = golit(U, 500)
+            k = nslots[0]; nslots[0] += 1
+            pre.append("decl:" + token(U))
+            for i, (lp, lt) in enumerate(leaves(U)):
+                pre.append("set:%d:%s:%d" % (k, pstr(lp), 500 + i + 1))
+            stores.append("store:%s:1:%s:%d/_" % (sctx, pstr(zpath), k))
+        elif form == "zero":
+            rhs = "%s{}" % Ugo
+            k = nslots[0]; nslots[0] += 1
+            pre.append("decl:" + token(U))
+            stores.append("store:%s:1:%s:%d/_" % (sctx, pstr(zpath), k))
+        elif form == "result":
+            rhs = "func() %s { return %s }()" % (Ugo, xs)
+            stores.append("store:%s:1:%s:result>0/%s" % (sctx, pstr(zpath), pstr(p)))
+        elif form == "deref":
+            B.append("qx := &%s" % ((x + sel(T, p)) if p else xval))
+            rhs = "*qx"
+            stores.append("store:%s:1:%s:0/%s" % (sctx, pstr(zpath), pstr(p)))
+        elif form == "conv":
+            rhs = "%s(%s)" % (Ugo if U["named"] else "(" + Ugo + ")", xs)
+            stores.append("store:%s:1:%s:0/%s" % (sctx, pstr(zpath), pstr(p)))
+        elif form == "var":
+            rhs = xs
+            stores.append("store:%s:1:%s:0/%s" % (sctx, pstr(zpath), pstr(p)))
+        if form == "swap":
+            B.append("var z2 %s" % Ugo)
+            k2 = nslots[0]; nslots[0] += 1
+            M.append("decl:" + token(U))
+            for i, (lp, lt) in enumerate(leaves(U)):
+                B.append("z2%s = %s" % (sel(U, lp), setv(lt, 700 + i + 1)))
+                M.append("set:%d:%s:%d" % (k2, pstr(lp), 700 + i + 1))
+            stmt = "%s, z2 = z2, %s" % (z, z)
+            ta = nslots[0]; tb = nslots[0] + 1; nslots[0] += 2
+            stores += ["bind:define:1/%s" % pstr(zpath), "bind:define:%d/_" % k2,
+                       "store:%s:1:%s:%d/_" % (sctx, pstr(zpath), tb), "store:assign:%d:_:%d/_" % (k2, ta)]
+            wrap = "closure" if tk == "captured" else "plain"
+        else:
+            stmt = "%s = %s" % (z, rhs)
+        M.extend(pre)
+        if wrap == "loop":
+            B.append("for k := 0; k < 2; k++ {\n%s\n}" % stmt)
+            M.extend(stores); M.extend(stores)
+        elif wrap == "closure":
+            B.append("func() {\n%s\n}()" % stmt)
+            M.extend(stores)
+        else:
+            B.append(stmt)
+            M.extend(stores)
+        B.append(mutx); M.append(mutx_m)
+        # write through an OLD pointer, then through the variable
+        wr = rng.choice(writers)
+        if wr == "pz":
+            B.append("pz%s = %s" % (sel(U, q2), setv(l2, 200)))
+        elif wr == "pl":
+            B.append("*pl = 200")
+        else:
+            B.append("fr()")
+        M.append("set:1:%s:200" % pstr(zpath + q2))
+        q3, l3 = pr.rand_leaf(U)
+        if q3 != q2:
+            B.append("%s%s = %s" % (z, sel(U, q3), setv(l3, 900)))
+            M.append("set:1:%s:900" % pstr(zpath + q3))
+        pr.dump(T, xval); M.append("dump:0")
+        pr.dump(U, z)                                       # the variable itself
+        M.append("bind:define:1/%s" % pstr(zpath)); M.append("dump:%d" % nslots[0])
+        pr.dump(U, "(*pz)")                                 # through the old pointer
+        M.append("dump:%d" % nslots[0])
+        if form == "swap":
+            pr.dump(U, "z2"); M.append("dump:%d" % k2)
+        B.append("if pz != &%s { println(%d, 98, 0, 0) }" % (z, pid))
     elif ctx in ("assign", "ptrStore"):
         B.append("var z %s" % Ugo); M.append("decl:" + token(U))
         B.append("pz := &z")
@@ -680,7 +798,7 @@ def gen_probe(pid, rng, types, forced=None):
 
 
 CONTEXTS = ["define", "arg", "rangeValue", "rangeOperand", "send", "mapStore", "litElem", "box", "recvValue", "methodValue", "ifaceCall",
-            "assign", "ptrStore", "elemStore", "fieldStore"]
+            "assign", "ptrStore", "elemStore", "fieldStore", "reassign", "reassign"]
 
 
 # ---- aliasing probes (no Lean value model: pointers/closures; native Go is the specification) -----------------------
@@ -1126,6 +1244,11 @@ EXPECTED_SITES = {
     ("statements.go", "translateAssign", "$clone("): 1,                                   # define
     ("statements.go", "translateAssign", ".copy("): 1,                                    # assign (in place)
     ("utils.go", "translateArgs", "translateImplicitConversionWithCloning"): 1,          # arg
+    # translateAssign's decision "copy in place vs rebind": the guarded returns that precede / contain `T.copy(dst, src)`
+    ("statements.go", "translateAssign", 'return-before-copy: l, ok := lhs.(*ast.IndexExpr); ok && t, ok := fc.typeOf(l.X).Underlying().(*types.Map); ok => `%s = %s; (%s || $throwRuntimeError("assignment to entry in nil map")).set(%s.keyFor(%s), { k: %s, v: %s });`'): 1,
+    ("statements.go", "translateAssign", 'return-before-copy: _, ok := rhs.(*ast.CompositeLit); ok && define => "%s = %s;"'): 1,    # the ONLY rebind: `x := T{...}`
+    ("statements.go", "translateAssign", 'return-before-copy: !isReflectValue && switch lhsType.Underlying().(type) case *types.Array,*types.Struct && define => "%s = $clone(%s, %s);"'): 1,
+    ("statements.go", "translateAssign", 'return-before-copy: !isReflectValue && switch lhsType.Underlying().(type) case *types.Array,*types.Struct => "%s.copy(%s, %s);"'): 1,
     ("functions.go", "translateFunctionBody", "$clone("): 1,                              # boundCall, ifaceCall (callee prologue)
 }
 
